@@ -187,13 +187,6 @@ def run(ctx):
         model_items.append('(%d, %s, %s)' % (MI[m0], common.coq_list([coq_f(x) for x in regs]), common.coq_list([str(MI[x]) for x in ch])))
         model_meta.append((m0, regs, ch, o))
 
-    def shortest_failing(m0, regs, ch, pred):
-        for k in range(1, len(ch)):
-            o2 = observe(world, m0, regs, ch[:k])
-            if o2.ok and pred(o2):
-                return ch[:k], o2
-        return ch, None
-
     # frame, kelvin, same-mode
     got = U.coq_eval('c14frm', SPEC_IMPORT, 'frame_cases', frame_items, per_file=500)
     for v, (m0, regs, ch, i, o) in zip(got, frame_meta):
